@@ -1174,8 +1174,53 @@ pub fn exec_history(r: &mut Report, rng: &mut Rng, idx: u64, mut w: CmdWorld, p:
     }
 }
 
+/// C12 scenario of seeded change s75: a peer wildcard audit and its publisher record are in
+/// imports.lock and certify the crate; a left-over exemption is still listed; the peer then changes
+/// only the `renew` flag of that audit.
+fn corpus_renew_flip(r: &mut Report) {
+    let v = |m: u64| VetVersion::parse(&format!("{m}.0.0")).unwrap();
+    let graph = gen::GGraph {
+        pkgs: vec![
+            gen::GPkg { name: "alfa".into(), version: v(1), source: 0, member: true, deps: vec![(1, 1)] },
+            gen::GPkg { name: "bravo".into(), version: v(2), source: 1, member: false, deps: vec![] },
+        ],
+        resolve_order: vec![0, 1],
+        member_order: vec![0],
+    };
+    let mut config = ConfigFile { cargo_vet: Default::default(), default_criteria: get_default_criteria(), imports: SortedMap::new(), policy: Default::default(), exemptions: SortedMap::new() };
+    config.imports.insert("peer0".into(), RemoteImport { url: vec![peer_url(0)], exclude: vec![], criteria_map: CriteriaMap::new() });
+    let audits = AuditsFile { criteria: SortedMap::new(), wildcard_audits: SortedMap::new(), audits: SortedMap::new(), trusted: SortedMap::new() };
+    let mut peer = AuditsFile { criteria: SortedMap::new(), wildcard_audits: SortedMap::new(), audits: SortedMap::new(), trusted: SortedMap::new() };
+    peer.wildcard_audits.insert("bravo".into(), vec![WildcardEntry { who: vec![], criteria: vec![gen::sp(SAFE_TO_DEPLOY.to_owned())], user_id: 1, start: gen::sp(gen::date(0)), end: gen::sp(gen::date(300)), renew: None, notes: None, aggregated_from: vec![], is_fresh_import: false }]);
+    let mut remote = Remote::default();
+    remote.peers.insert(peer_url(0), peer);
+    remote.registry.insert("bravo".into(), vec![RegVersion { version: semver::Version::new(2, 0, 0), user: Some(1), day: 10 }]);
+    let mut w = CmdWorld { graph, config, audits, remote };
+    let p = setup_project(&w);
+    w.remote.install();
+    // first check: the wildcard audit and the publisher record land in imports.lock
+    let (o1, _) = p.run(&[]);
+    // a left-over exemption
+    if let Ok(Ok(mut st)) = guarded(|| Store::mock_acquire(&p.files()[1], &p.files()[0], &p.files()[2], mock_today(), false)) {
+        st.config.exemptions.insert("bravo".into(), vec![ExemptedDependency { version: v(2), criteria: vec![gen::sp(SAFE_TO_DEPLOY.to_owned())], suggest: true, notes: None }]);
+        p.write(&st.mock_commit());
+    }
+    // the peer flips renew
+    for l in w.remote.peers.get_mut(&peer_url(0)).unwrap().wildcard_audits.values_mut() {
+        for a in l.iter_mut() {
+            a.renew = Some(false);
+        }
+    }
+    r.count(&format!("corpus-renew-flip:first-check:{}", describe_outcome(&o1)));
+    let mut crng = Rng::new(1);
+    exec_history(r, &mut crng, 0, w, p, Some(vec![&[], &[]]));
+}
+
 pub fn run(r: &mut Report) {
     let (shard, nshards) = shard();
+    if shard == 0 && r.prop == "C12" && std::env::var("VERIF_ONLY_CMD").is_err() {
+        corpus_renew_flip(r);
+    }
     let n = if r.thorough() { 9600 } else { 1600 } / nshards;
     let mut rng = Rng::new(r.seed.wrapping_add(shard.wrapping_mul(15485863)) ^ 0xC0FFEE);
     let only: Option<u64> = std::env::var("VERIF_ONLY_CMD").ok().and_then(|s| s.parse().ok());
